@@ -115,12 +115,22 @@ def fn_to_py(fnspec):
         return BUILTIN_KEYS[fnspec]
     if fnspec.get("special"):
         return fnspec["name"]
-    return userfns.USER[fnspec["name"]]
+    return user_by_sig(fnspec["name"], fnspec.get("params"))
 
 
-def user_fn_spec(name):
-    f = userfns.USER[name]
-    return {"name": name, "qual": "function " + name, "params": list(inspect.signature(f).parameters)}
+def user_by_sig(name, params):
+    """the registered user function called `name` whose parameter list is `params` (two different
+    functions may carry the same __name__)"""
+    cands = [f for f in userfns.USER.values() if f.__name__ == name]
+    for f in cands:
+        if params is None or list(inspect.signature(f).parameters) == list(params):
+            return f
+    return cands[0]
+
+
+def user_fn_spec(key):
+    f = userfns.USER[key]
+    return {"name": f.__name__, "qual": "function " + f.__name__, "params": list(inspect.signature(f).parameters)}
 
 
 def fn_from_model(fnj):
@@ -130,7 +140,7 @@ def fn_from_model(fnj):
     qual = fnj["qual"]
     if qual.startswith("function PulseAtoms."):
         return getattr(PA, qual[len("function PulseAtoms."):])
-    return userfns.USER[fnj["name"]]
+    return user_by_sig(fnj["name"], fnj.get("params"))
 
 
 # --------------------------------------------------------------------------
